@@ -20,6 +20,12 @@ def main():
     if lib is None:
         print(err[-3000:])
         return 1
+    try:
+        from ltv import e2e
+        e2e.build_server()
+        print("sanitized lighttpd built")
+    except Exception as x:       # the e2e checks report it themselves
+        print("server build failed: %s" % str(x)[-1500:])
     print("setup ok")
     return 0
 
